@@ -38,10 +38,13 @@ structure Http where
   headers : List (Str × Str)
 deriving Repr, DecidableEq, Inhabited
 
-/-- A dynamic-metadata leaf: a string or a list of strings. -/
+/-- A dynamic-metadata leaf: a string, a list (its string elements; the string matchers the
+    compiler emits never match a non-string element), or any other kind of value (number, bool,
+    null, struct). -/
 inductive MVal
   | str (s : Str)
   | strs (l : List Str)
+  | other
 deriving Repr, DecidableEq, Inhabited
 
 /-- An IP address: family and the address as a number (32 or 128 bits).  A numeral denotes an IPv4
@@ -134,6 +137,8 @@ def evalVal : ValM → MVal → Bool
   | .str _, .strs _ => false
   | .listM v, .strs l => l.any fun s => evalVal v (.str s)
   | .listM _, .str _ => false
+  | .str _, .other => false
+  | .listM _, .other => false
   | .orM l, x => evalValAny l x
 def evalValAny : List ValM → MVal → Bool
   | [], _ => false
